@@ -18,7 +18,7 @@ pub fn def() -> CheckDef {
         id: "C13",
         level: "fault_enumeration",
         cases: |t| match t {
-            Tier::Quick => 32,
+            Tier::Quick => 16,
             Tier::Thorough => 1_000,
         },
         gen,
@@ -35,7 +35,7 @@ pub fn gen(seed: u64, idx: u64, _tier: Tier) -> Case {
     let version = if rng.chance(1, 2) { 3 } else { 4 };
     let mut c = Case::new("C13", "enumerate", version);
     c.bufsize = *rng.pick(gen::BUFSIZES);
-    let max_stream = *rng.pick(&[3000u64, 9000, 9000, 40_000]);
+    let max_stream = *rng.pick(&[3000u64, 6000, 9000]);
     let cfg = GenCfg {
         max_ops: 40,
         names: vec!["a".into(), "b".into(), "dir".into(), "c".into()],
@@ -67,7 +67,7 @@ pub fn gen(seed: u64, idx: u64, _tier: Tier) -> Case {
         no_remove_with_open_handles: true,
         set_len_shrink_only: false,
     };
-    let n = rng.range(6, 40) as usize;
+    let n = rng.range(6, 26) as usize;
     let mut g = Gen::new(&mut rng, &cfg, Model::new(version));
     let mut ops = g.history(n);
     // make sure every handle is flushed explicitly before the end
